@@ -16,7 +16,7 @@ META = {
              'failed-write cause followed by removal of the cause; signature = (object type, rejection kind, position '
              'class, name reused afterwards?); all are non-trivial'),
     'required_obs': {'quick': ['compared', 'rejected-as-intended', 'name-reused-after-rejection', 'rejection-after-registration',
-                               'rejection-before-registration', 'rejected-call-other-logical-file'] + ['rej-' + k for k in REJECTIONS] + ['failed-write-' + k for k in FAILED_WRITES]},
+                               'rejection-before-registration', 'rejected-call-other-logical-file', 'rejected-assignment-between-writes'] + ['rej-' + k for k in REJECTIONS] + ['failed-write-' + k for k in FAILED_WRITES]},
     'assumptions': ['rejection kinds are those the public API itself raises for',
                     'both histories run in fresh interpreters, so process-level caches (C14) cannot interfere'],
     'technique': 'runtime monitoring + fault enumeration: byte differential between a history with rejected calls / a failed write and the same history without them (fresh processes)',
@@ -37,6 +37,10 @@ def cases(tier, seed):
     # two logical files: a call rejected in one of them must not tie it to the other's sets
     for j in range(12 if tier == 'quick' else 200):
         yield {'stratum': 'rejected-call-other-logical-file', 'index': i, 'kind': 'reject-multilf'}
+        i += 1
+    # a rejected assignment BETWEEN two writes (values derived at the first write are in place by then)
+    for j in range(16 if tier == 'quick' else 300):
+        yield {'stratum': 'rejected-assignment-between-writes', 'index': i, 'kind': 'reject-between-writes'}
         i += 1
     for fw in FAILED_WRITES:
         for j in range(4 if tier == 'quick' else 60):
@@ -236,6 +240,51 @@ def run_case(case):
                         'detail': f'{label}: files differ; {describe_diff(d1, d2)}'})
         return {'evals': 1, 'violations': vio, 'obs': obs, 'sigs': [f'multilf:{t}:{sn}:{order[0] is good}'],
                 'sample': {'type': t, 'set_name': sn, 'rejected_in_lf': 1 - good_lf, 'exception': o1[rej_idx][1:]}}
+    if case['kind'] == 'reject-between-writes':
+        from vf.checks import c14
+        sp = c14.base_spec(r, avoid)
+        chans = [(i, o) for i, o in enumerate(sp['ops']) if o['op'] == 'channel']
+        frames = [(i, o) for i, o in enumerate(sp['ops']) if o['op'] == 'frame']
+        which = r.choice(['cast-dtype', 'cast-dtype', 'dimension', 'frame-index', 'attr-value'])
+        ci, co = r.choice([(i, o) for i, o in chans if not o.get('cast_dtype')] or chans)
+        if which == 'cast-dtype':
+            bad = {'op': 'setattr', 'target': ci, 'field': 'cast_dtype', 'value': {'$dtype': r.choice(['int64', 'uint64', 'float16']), 'as': 'type'}}
+        elif which == 'dimension':
+            bad = {'op': 'assign', 'target': ci, 'target_op': 'channel', 'kw': 'dimension', 'part': 'value', 'value': ['not a number']}
+        elif which == 'frame-index':
+            fi, fo = next((i, o) for i, o in frames if o['name'] == 'K-FRAME')
+            bad = {'op': 'assign', 'target': fi, 'target_op': 'frame', 'kw': r.choice(['index_min', 'index_max', 'spacing']), 'part': 'value',
+                   'value': {'$tuple': [1, 2]}}
+        else:
+            zi = next(i for i, o in enumerate(sp['ops']) if o.get('name') == 'K-ZONE')
+            bad = {'op': 'assign', 'target': zi, 'target_op': 'zone', 'kw': 'domain', 'part': 'value', 'value': 'NOT-A-DOMAIN'}
+        bad['expect'] = 'reject'
+        # second write: other data (another dtype / width / values), so that everything derived must be derived again
+        arrays = {}
+        kind2 = r.choice(['other-data-dtype', 'other-data', 'other-data-width'])
+        ph_other = c14.make_phase(r, kind2, list(sp['ops']), sp, avoid)
+        hist_with = {'base': sp, 'foreign_before': [], 'phases': [{'ops': [], 'write': {'output_chunk_size': 2 ** 16}},
+                                                                   {'ops': [bad], 'write': {'output_chunk_size': 2 ** 16}, 'arrays': ph_other.get('arrays')}]}
+        hist_without = copy.deepcopy(hist_with)
+        hist_without['phases'][1]['ops'] = []
+        w1, d1, o1, _ = history.run_history(hist_with)
+        rej_idx = len(sp['ops'])
+        if len(o1) <= rej_idx or o1[rej_idx][0] == 'ok':
+            bump('not-rejected:between-writes:' + which)
+            return {'evals': 0, 'violations': [], 'obs': obs, 'sigs': [], 'sample': None}
+        bump('rejected-as-intended')
+        bump('rejected-assignment-between-writes')
+        w2, d2, o2, _ = history.run_history(hist_without)
+        bump('compared')
+        label = f'write; rejected assignment ({which}: {o1[rej_idx][1]}: {o1[rej_idx][2][:60]}); write with {kind2}'
+        if (w1[0] == 'ok') != (w2[0] == 'ok'):
+            vio.append({'prop': PROP, 'kind': 'rejected-call-changes-writability', 'mech': f'trace:outcome:between-writes:{which}',
+                        'detail': f'{label}: with the rejected assignment {w1[:3]}, without {w2[:3]}'})
+        elif w1[0] == 'ok' and d1 != d2:
+            vio.append({'prop': PROP, 'kind': 'rejected-call-leaves-trace', 'mech': f'trace:between-writes:{which}',
+                        'detail': f'{label}: second files differ (sizes {len(d1)} / {len(d2)}); {describe_diff(d1, d2)}'})
+        return {'evals': 1, 'violations': vio, 'obs': obs, 'sigs': [f'between-writes:{which}:{kind2}'],
+                'sample': {'rejected': which, 'exception': o1[rej_idx][1:], 'second_write': kind2}}
     if case['kind'] == 'reject':
         t, rk = case['type'], case['rejection']
         ops = base['ops']
